@@ -157,6 +157,11 @@ class Ctx:
         self.mode = "prove"
         try:
             return fn(*args)
+        except (AttributeError, TypeError, KeyError, IndexError, z3.Z3Exception) as ex:
+            # a contract clause is Python code over the state's representation (fields, cells, locals it names); when the code under
+            # verification changed that representation the clause cannot be evaluated: the function is undecided (never a violation
+            # by itself - the bounded native search decides), not a checker crash
+            raise Undecided(f"the contract no longer fits the code: evaluating a clause raised {type(ex).__name__}: {str(ex)[:120]}")
         finally:
             self.mode = old
 
